@@ -3,6 +3,7 @@ Scenario replay: parsing, oracle construction from tapes, canonical printing.
 Not part of any theorem; it is the executable half of the correspondence check.
 -/
 import Hb.Model.Api
+import Hb.Proofs.Defs
 import Std.Data.HashMap
 namespace Hb.Driver
 open Hb
@@ -243,9 +244,18 @@ def execOp (st : DState) (env : Env) (name : String) (args : List String) (other
   | "nop", [] => no ({ ret := "()", w := w }, false)
   | _, _ => ({ ret := s!"bad-op {name}", w := w }, true, none)
 
+/-- Run-time test of the invariant definitions on the model state (never fires unless the model or
+    the definitions are wrong; a firing shows up as a disagreement with the implementation). -/
+def invNote (st : DState) (t : Raw) : String :=
+  if !invB st.cfg t then s!" INV-FAIL({invWhy st.cfg t})"
+  else if st.envp.hashMode == "plan" && st.envp.eqMode == "law" && st.coll != "table" && t.buckets ≤ 64 then
+    let H := fun k => (st.plan.get? k).getD (mix3 0x5eed 0 k)
+    if invLB st.cfg H t then "" else " INVL-FAIL"
+  else ""
+
 def obsLine (st : DState) (out : StepOut) : String :=
   let alloc := match allocationSize st.cfg out.w.t with | .ok n => toString n | .error f => s!"FAULT({f})"
-  s!"{out.ret} ; {fmtState st.ids out.w.t} len={out.w.t.items} cap={out.w.t.capacity} asz={alloc} ; {fmtEvents st.coll st.cfg.needsDrop out.w.log} ; h={out.w.hc} e={out.w.ec} c={out.w.cc} p={out.w.pc} a={out.w.ac} d={out.w.dc}"
+  s!"{out.ret}{invNote st out.w.t} ; {fmtState st.ids out.w.t} len={out.w.t.items} cap={out.w.t.capacity} asz={alloc} ; {fmtEvents st.coll st.cfg.needsDrop out.w.log} ; h={out.w.hc} e={out.w.ec} c={out.w.cc} p={out.w.pc} a={out.w.ac} d={out.w.dc}"
 
 /-- Process one line; returns the new state and an optional output line. -/
 def stepLine (st : DState) (line : String) : DState × Option String :=
